@@ -259,7 +259,7 @@ Box<V>::intersects (const V& point) const IMATH_NOEXCEPT
 {
     for (unsigned int i = 0; i < min.dimensions (); i++)
     {
-        if (point[i] < min[i] || point[i] > max[i]) return false;
+        if (!(point[i] >= min[i] && point[i] <= max[i])) return false;
     }
 
     return true;
